@@ -22,6 +22,7 @@ exit removes by (own peer id, own stable id) and never by peer id alone, and tha
 the handler task returns (after the loop, not skippable). Decides these shape facts
 for all paths; does not execute histories.
 One layer out: clones of the peer-map handle share the map, PeerId equality and hashing are the derived byte-wise ones, and the public listing / subscription are plain views of the map.
+Between leaving its loop (connection seen closed) and the removal the handler task has no suspension point.
 """
 TRUSTED = ["std HashMap/Entry/RwLock semantics", "tokio broadcast channel delivers in send order"]
 NOT_DECIDED = ["lagging subscribers (broadcast capacity overflow)", "interleavings below the lock granularity"]
@@ -351,6 +352,15 @@ def run(cx):
         ob.require(all(co.all_paths_pass(0, [r], [c.bb], succ=co.succ_noawait) for r in rets), "handler-exit/on-every-return",
                    "a path on which the connection handler returns skips remove_with_stable_id (the peer stays listed although its connection is gone)", co.path, co.loc(c.bb))
         ob.require(c.bb not in co.cyclic_blocks(), "handler-exit/after-loop", "remove_with_stable_id lies inside the handler loop", co.path, co.loc(c.bb))
+        # ... and promptly: once the loop is left (the connection was seen closed) the task does not suspend before the
+        # removal - an await there keeps a dead peer listed, and its LostPeer unpublished, for as long as the awaited thing takes
+        cyc = set(co.cyclic_blocks())                 # the handler loop (await-collapsed graph: an await's own poll cycle is not a loop)
+        after = set()
+        for x in cyc:
+            after |= co.reachable_from(x)
+        late = sorted(y for y in after - cyc if co.term(y)["k"] == "yield" and c.bb in co.reachable_from(y) and not (co.reachable_from(y) & cyc))
+        ob.require(not late, "handler-exit/no-await-before-removal", f"the handler awaits between leaving its loop and remove_with_stable_id (suspension points: {['bb%d' % y for y in late]})",
+                   co.path, co.loc(late[0]) if late else None)
         check_callers(ob, prog, f"{API}::remove_with_stable_id", [f"{RH}::start"], exact=1, what="ActivePeers::remove_with_stable_id")
         check_callers(ob, prog, f"{API}::remove", ["anemo::network::NetworkInner::disconnect"], exact=1, what="ActivePeers::remove (by peer)")
         check_callers(ob, prog, f"{API}::add", [f"{CM}::ConnectionManager::add_peer"], exact=1, what="ActivePeers::add")
